@@ -159,9 +159,13 @@ def standard_check(plugin, tier, seed, replay=None):
             elif cls == "adv":
                 cov["advisory"] += 1
             elif cls == "kf":
-                kf_hits[tag] += 1
-                if tag not in known:
-                    bad.append((c, o, v, "known-finding class %s is not listed in known-findings.json" % tag))
+                # a verdict may name several candidate classes (C08 documents combining elements of several classes):
+                # it is explained when one of them is listed
+                ids = [x for x in parsed[1:] if isinstance(x, str)] or [tag]
+                listed = [x for x in ids if x in known]
+                kf_hits[(listed or ids)[0]] += 1
+                if not listed:
+                    bad.append((c, o, v, "known-finding class %s is not listed in known-findings.json" % "/".join(ids)))
             elif cls == "bad":
                 bad.append((c, o, v, tag))
             else:
